@@ -47,6 +47,11 @@ def skeletons(tier):
     progs.append(("late-helper", {
         "funcs": [mkfunc("R", calls=[call("K")], rich=False), mkfunc("K", kind="plain", reads=["LV"])],
         "vars": {"LV": 3}, "late": ["LV"], "order": ["R", "K"]}))
+    # several tracked variables holding equal values: an edit may give one the value another one has (or had)
+    progs.append(("equal-valued-vars", {
+        "funcs": [mkfunc("R", calls=[call("D")], reads=["V1", "V2", "V3"], rich=False),
+                  mkfunc("D", kind="plain", reads=["V3", "W1", "W2"], rich=False)],
+        "vars": {"V1": 1, "V2": 2, "V3": 1, "W1": "a", "W2": "b"}, "copy_edits": True}))
     # memento callees living in another package (vfq.lib) are tracked across packages; PLAIN helpers of that other
     # package are outside the statement ("plain helper functions of the same package"), so the skeleton has none
     progs.append(("cross-package", {
@@ -142,7 +147,7 @@ def history_case(args):
                     site = sites[k - 1] if k > 0 else ("initial", None, None)
                     stale = k > 0 and g == got[k - 1]["results"][ci][0]
                     clause = "stale" if stale else ("raised" if g[0] == "exc" else "wrong-value")
-                    what = site[2] if site[0] == "feature" else (site[1] if site[0] in ("var", "classattr", "rebind") else "")
+                    what = site[2] if site[0] == "feature" else (site[1] if site[0] in ("var", "varcopy", "classattr", "rebind") else "")
                     sig = "%s|%s:%s|%s|%s%s" % (delivery.split(":")[0] if clause != "stale" or ":" not in delivery else delivery,
                                                 site[0], what, site_role(p0, site, c[0]) if k > 0 else "-", clause,
                                                 "|via=" + c[3] if c[3] else "")
@@ -178,13 +183,16 @@ def run(ctx):
     for pi, (name, p0) in enumerate(sk):
         sites = progen.edit_sites(p0)
         sites = [s for s in sites if progen.apply_edit(p0, s) is not None]
-        for delivery in ("xproc", "inproc:reexec", "inproc:reload"):
+        has_container = any(isinstance(v, (list, dict)) for v in p0.get("vars", {}).values())
+        for delivery in ("xproc", "inproc:reexec", "inproc:reload") + (("inproc:mutate",) if has_container else ()):
             tasks.append((pi, (), delivery, ctx.tier))
             for s in sites:
+                if delivery == "inproc:mutate" and not (s[0] == "var" and isinstance(p0["vars"][s[1]], (list, dict))):
+                    continue  # in-place mutation of a tracked list / dict instead of re-binding the name
                 tasks.append((pi, (s,), delivery, ctx.tier))
                 if delivery != "inproc:reload" or thorough:
                     tasks.append((pi, (s, ("revert", 0, None)), delivery, ctx.tier))
-            if L >= 2 and delivery != "inproc:reload":
+            if L >= 2 and delivery not in ("inproc:reload", "inproc:mutate"):
                 for s1, s2 in itertools.product(sites, repeat=2):
                     if s1[0] == "feature" and s2[0] == "feature" and s1[1] == s2[1] and s1[2] != s2[2] and len(sites) > 30:
                         continue  # two different constants of the same function: covered at L=1 each
